@@ -126,9 +126,9 @@ var c02AdequacyMissing = func() []string {
 // ---- atoms
 
 type c02Atom struct {
-	n      *gen.Node
-	kind   string // scan class it should induce: mget, prefix, ge, le, between, opaque
-	canon  bool   // representative used for the depth-2 enumeration
+	n     *gen.Node
+	kind  string // scan class it should induce: mget, prefix, ge, le, between, opaque
+	canon bool   // representative used for the depth-2 enumeration
 }
 
 func c02Atoms() []c02Atom {
